@@ -582,8 +582,9 @@ var pcURIs = []string{
 func pcGenExts(r *Rand, many bool) []pcExtReg {
 	var out []pcExtReg
 	n := r.Range(0, 5)
+	main := r.Range(1, 2)
 	if many {
-		n = r.Range(12, 18)
+		n = r.Range(13, 20) // around the 14 one-byte ids, mostly for one kind
 	}
 	for i := 0; i < n; i++ {
 		uri := Pick(r, pcURIs)
@@ -591,6 +592,13 @@ func pcGenExts(r *Rand, many bool) []pcExtReg {
 			uri = fmt.Sprintf("urn:x:ext:%d", r.Intn(24))
 		}
 		e := pcExtReg{URI: uri, Kind: r.Range(1, 2)}
+		if many {
+			uri = fmt.Sprintf("urn:x:ext:%d", i)
+			e = pcExtReg{URI: uri, Kind: main}
+			if r.Chance(1, 8) {
+				e.Kind = 3 - main
+			}
+		}
 		switch r.Intn(6) {
 		case 0:
 			e.Dirs = []int{1}
